@@ -20,7 +20,7 @@ RULE = ("seeded model programs (float/int/Duration clocks, warm-up in {0, inside
         "= >=1 observation before and >=2 after the warm-up notification for some statistic and the warm-up strictly "
         "inside the run; distinct = canonical program hash")
 ASSUMPTIONS = ["an observation made at exactly the warm-up time by an event that ran before the warm-up notification (priority 10, "
-               "scheduled earlier, or during construct_model) is ambiguous in the statement: such statistics are not value-judged",
+               "scheduled earlier, or during construct_model) is ambiguous in the statement: counting it and not counting it are both accepted",
                "the ordinary statistic is fed through the same numeric conversion the documented entry point applies (float() for data events)"]
 
 
@@ -53,6 +53,28 @@ def shard_teardown(tier, ctx):
     simharness.cleanup_all()
     sys.stdout = sys.__stdout__
     sys.stderr = sys.__stderr__
+
+
+def _ordinary(S, kind, obs, conv, end):
+    """an ordinary statistic fed the given observation records"""
+    if kind == "counter":
+        o = S.Counter("o")
+        for r in obs:
+            o.register(r[3][0])
+    elif kind == "tally":
+        o = S.Tally("o")
+        for r in obs:
+            o.register(conv(r[3][0]))
+    elif kind == "wtally":
+        o = S.WeightedTally("o")
+        for r in obs:
+            o.register(conv(r[3][0]), conv(r[3][1]))
+    else:
+        o = S.TimestampWeightedTally("o")
+        for r in obs:
+            o.register(float(r[2]), conv(r[3][0]))
+        o.end_observations(float(end))
+    return o
 
 
 def run_case(case, ctx):
@@ -128,13 +150,25 @@ def run_case(case, ctx):
             key, kind, via = sp["key"], sp["kind"], sp.get("via")
             st = created[key]
             obs = [(i, r) for i, r in enumerate(tl) if r[0] == "o" and r[1] == key]
-            ambiguous = any(i < wi and r[2] == warm for i, r in obs)
             post = [r for i, r in obs if i > wi]
             pre = [r for i, r in obs if i < wi]
-            if ambiguous:
-                ctx.count("statistics_skipped_ambiguous_observation_at_warmup_instant")
-                continue
+            # observations made at exactly the warm-up time *before* the warm-up notification (priority-10 events scheduled
+            # earlier, construct_model): the statement can be read either way, so both readings are acceptable oracles
+            edge = [r for i, r in obs if i < wi and r[2] == warm]
             conv = (lambda v: float(v)) if via == "event" else (lambda v: v)
+            if edge:
+                ctx.count("statistics_with_an_observation_at_the_warmup_instant_before_the_notification")
+                verdicts = []
+                for reading in (post, edge + post):
+                    o = _ordinary(S, kind, reading, conv, end)
+                    verdicts.append(stat_getters(st) == stat_getters(o))
+                ctx.count("statistics_compared")
+                if not any(verdicts):
+                    ctx.viol(f"sim-statistic-differs:{kind}", {**where, "key": key, "via": via, "note": "differs under both readings of "
+                             "observations made at the warm-up instant before the notification", "got": stat_getters(st),
+                             "n_pre": len(pre), "n_post": len(post)})
+                    return
+                continue
             if kind == "counter":
                 o = S.Counter("o")
                 for r in post:
